@@ -6,18 +6,19 @@ import Verif.Lemmas.OrderChanges
 namespace Verif.MptStore
 open Verif.Mpt Collector
 
-/-- `TrieRun H U v t es t'`: the events `es` of one trie at version `v` from tree `t` to `t'`, all references inside `U`:
-    own rounds, and merges of children that are opened on the current tree with a fresh collector `c0`, run themselves
+/-- `TrieRun H U Vok t es t'`: the events `es` of one trie from tree `t` to `t'`, all references inside `U`: own rounds —
+    each at its own version `v` with `Vok v` (a trie's version may change between its rounds: `SetVersion`; children and
+    parents may run at different versions: `mergeChanges` keeps the child's origins since fix 280766e) — and merges of children that are opened on the current tree with a fresh collector `c0`, run themselves
     (`esC`, possibly with nested children) and are replayed in the order `orderChanges` computes (which is not stuck) -/
-inductive TrieRun (H : Bytes → Bytes) (U : Ref → Prop) (v : Nat) : Node → List Event → Node → Prop where
-  | nil (t : Node) : TrieRun H U v t [] t
-  | own (t t1 t' : Node) (es1 es : List Event) : RoundEvents v t es1 t1 → (∀ r ∈ eventRefs es1, U r) →
-      TrieRun H U v t1 es t' → TrieRun H U v t (es1 ++ es) t'
+inductive TrieRun (H : Bytes → Bytes) (U : Ref → Prop) (Vok : Nat → Prop) : Node → List Event → Node → Prop where
+  | nil (t : Node) : TrieRun H U Vok t [] t
+  | own (v : Nat) (t t1 t' : Node) (es1 es : List Event) : Vok v → RoundEvents v t es1 t1 → (∀ r ∈ eventRefs es1, U r) →
+      TrieRun H U Vok t1 es t' → TrieRun H U Vok t (es1 ++ es) t'
   | merge (t t2 t' : Node) (c0 : Trie) (esC es : List Event) :
-      c0.cc.changes = [] ∧ c0.cc.deletes = [] → TrieRun H U v t esC t2 →
+      c0.cc.changes = [] ∧ c0.cc.deletes = [] → TrieRun H U Vok t esC t2 →
       orderStuck H (c0.applyEvents H esC).cc.getChanges = false →
-      TrieRun H U v t2 es t' →
-      TrieRun H U v t (mergeEvents (orderChanges H (c0.applyEvents H esC).cc.getChanges)
+      TrieRun H U Vok t2 es t' →
+      TrieRun H U Vok t (mergeEvents (orderChanges H (c0.applyEvents H esC).cc.getChanges)
         (c0.applyEvents H esC).cc.getDeletes ++ es) t'
 
 theorem liveRun_sub_nodes {κ N : Type} (k : N → κ) (P : N → Prop) (cs : List (Call N)) :
@@ -41,15 +42,15 @@ theorem callNodes_mono {N : Type} {P Q : N → Prop} (h : ∀ n, P n → Q n) (c
   | del o => exact h _ hc
   | add o n => exact ⟨h _ hc.1, fun o' ho' => h _ (hc.2 o' ho')⟩
 
-theorem trieRun_discipline (H : Bytes → Bytes) (U : Ref → Prop) (hU : KeyInjOn H U) {v : Nat} {t t' : Node} {es : List Event}
-    (h : TrieRun H U v t es t') :
+theorem trieRun_discipline (H : Bytes → Bytes) (U : Ref → Prop) (hU : KeyInjOn H U) {Vok : Nat → Prop} {t t' : Node} {es : List Event}
+    (h : TrieRun H U Vok t es t') :
     WF t → (∀ r ∈ refs t [], U r) → ∀ LK : Bytes → Prop, (∀ r ∈ refs t [], LK (r.key H)) →
       (∀ x, LK x → ∃ r, U r ∧ r.key H = x) →
       Disc (Ref.key H) LK (callsOf H es) ∧ (∀ r ∈ refs t' [], liveRun (Ref.key H) LK (callsOf H es) (r.key H)) ∧
       WF t' ∧ (∀ r ∈ eventRefs es, U r) ∧ (∀ r ∈ refs t' [], U r) := by
   induction h with
   | nil t => intro hw hUt LK hcov _; exact ⟨trivial, hcov, hw, (fun r hr => by cases hr), hUt⟩
-  | own t t1 t' es1 es hr hE _ ih =>
+  | own v t t1 t' es1 es _ hr hE _ ih =>
     intro hw hUt LK hcov hLKU
     -- the own round, at reference level with the live references of `U` whose key is live
     have hLR : ∀ r ∈ refs t [], (fun r => U r ∧ LK (r.key H)) r := fun r hr' => ⟨hUt r hr', hcov r hr'⟩
